@@ -45,6 +45,11 @@ std::vector<CheckDef>& check_table()
 		  "first opens it (concurrent-change and I/O faults addressed by file), further changes after the last sync; then damage without any per-stripe budget (devices lost, files deleted/truncated/extended, blocks flipped with the stamp restored, parity damaged) and fix with "
 		  "random -m/-e/-b/-f/-d filters. Judged per recorded file against the harness version store (blocks selected by recorded hash): correct bytes, or reported unrecoverable with failing exit and counted; recovered => correct; nothing the log does not mention and no unknown file is written. "
 		  "Non-trivial = a fix in which at least one file could be judged" },
+		{ "C14", "exploration", { { "interlock", 1500, 30000 } },
+		  "each trigger on a seeded synced array, alone or mixed with ordinary pending changes: all files of a disk missing / all rewritten (--force-empty), a non-empty file now empty (--force-zero), a parity file deleted or halved (--force-full), "
+		  "blocksize or hashsize changed in the configuration, a recorded disk dropped from it. Refusal = non-zero exit with content and parity byte-identical (absent parity == empty); with the override (or the configuration restored) the sync proceeds, the parity oracle holds and diff is clean. "
+		  "Lock: command A (sync/scrub/fix/check) is parked at mutation index k by the file layer (k=1,2 and seeded others; thorough 12 points), command B of every kind runs to completion as a second process, A resumes: whenever A's trace shows the lock held, B must fail with the 'already in use' diagnostic "
+		  "and issue no mutating call, A ends as when alone, and B is not refused afterwards. Non-trivial = every trigger judged and every pair in which B ran while the lock was held" },
 		{ "C06", "exploration", { { "parity-inv", 4000, 80000 }, { "crash", 16, 400 } },
 		  "seeded histories of file-system changes interleaved with sync variants/scrub/fix/touch/rehash/check under seeded schedules; the independent parity oracle runs after every command. "
 		  "A run is non-trivial when at least one fully synced stripe was compared with parity and >= 3 commands ran; distinct = distinct (config, op sequence) hashes" },
